@@ -68,6 +68,56 @@ def almost_sorted(rng, ids):
     return ids, how
 
 
+def gen_ops(rng, n_ids, v_ids, widths, int_tables, count):
+    """in-place edits of the node table / of nodal variables through the public API, as a list of
+    abstract operations (n_ids, v_ids = current id sets; both are updated):
+      put      table.update(ids, rows, allow_overwrite=True)   existing rows overwritten, new appended
+      renumber table.ids = [sigma(i) for i in table.ids]        sigma a permutation of the table's ids
+    A node that is appended gets a row in every variable (every nodal variable is point data)."""
+    ops = []
+
+    def row(t):
+        w = widths[t]
+        return [pair(Fr(rng.randint(-64, 64), 1 if t in int_tables else rng.choice([1, 2, 4])))
+                for _ in range(w)]
+    for _ in range(count):
+        kind = rng.choice(['put_existing', 'put_existing', 'put_new', 'renumber', 'put_mixed'])
+        target = rng.choice(['NODE', 'NODE'] + sorted(v_ids))
+        cur = n_ids if target == 'NODE' else v_ids[target]
+        if kind == 'renumber':
+            perm = list(cur)
+            rng.shuffle(perm)
+            ops.append({'op': 'renumber', 'target': target, 'sigma': [[a, b] for a, b in zip(cur, perm)]})
+            continue                    # the id SET is unchanged
+        ids = []
+        if kind in ('put_existing', 'put_mixed'):
+            ids += rng.sample(cur, rng.randint(1, min(3, len(cur))))
+        if kind in ('put_new', 'put_mixed'):
+            # a new id next to an existing one, below the smallest or above the largest
+            #  (its place in the sorted order varies)
+            taken = set(n_ids)
+            for v_ in v_ids.values():
+                taken |= set(v_)
+            base = rng.choice(n_ids + [min(n_ids), max(n_ids)])
+            cand = [base + d for d in list(range(-6, 0)) + list(range(1, 7))
+                    if base + d >= 1 and base + d not in taken]
+            if cand:
+                ids.append(rng.choice(cand))
+        if not ids:
+            continue
+        rng.shuffle(ids)
+        ops.append({'op': 'put', 'target': target, 'ids': ids, 'rows': [row(target) for _ in ids]})
+        new = [i for i in ids if i not in cur]
+        cur.extend(new)
+        if target == 'NODE':
+            for name in sorted(v_ids):
+                miss = [i for i in new if i not in v_ids[name]]
+                if miss:
+                    ops.append({'op': 'put', 'target': name, 'ids': miss, 'rows': [row(name) for _ in miss]})
+                    v_ids[name].extend(miss)
+    return ops
+
+
 def gen_mesh(rng, cid, misaligned=False, malformed=False, only_type=None):
     types = rng.sample(list(ARITY), rng.randint(1, 8))
     if rng.random() < 0.25:
@@ -175,8 +225,29 @@ def gen_mesh(rng, cid, misaligned=False, malformed=False, only_type=None):
                 ow['how'] = 'overwrite'
         if not then:
             then = None
+    # histories of in-place table edits through update(..., allow_overwrite=True) / ids assignment:
+    # before the first export and / or between two exports (then exclusively, so that the sizes of
+    # the other history steps stay those of the original tables)
+    pre_ops = None
+    if not malformed and rng.random() < 0.3:
+        widths = {'NODE': 3}
+        for v in variables:
+            w = 1
+            for s_ in v['shape'][1:]:
+                w *= s_
+            widths[v['name']] = w
+        int_tables = {v['name'] for v in variables if v['dtype'].startswith('int')} | \
+            ({'NODE'} if pdt.startswith('int') else set())
+        n_ids, v_ids = list(ids), {v['name']: list(v['ids']) for v in variables}
+        how = rng.choice(['pre', 'then', 'both'])
+        if how in ('pre', 'both'):
+            pre_ops = gen_ops(rng, n_ids, v_ids, widths, int_tables, rng.randint(1, 3))
+        if how in ('then', 'both'):
+            then = {'ops': gen_ops(rng, n_ids, v_ids, widths, int_tables, rng.randint(1, 3))}
+        else:
+            then = None             # a single export after the edits
     return {'id': cid, 'node_ids': ids, 'points': [[pair(x) for x in p] for p in pts],
-            'points_dtype': pdt, 'order_nodes': order_how, 'then': then,
+            'points_dtype': pdt, 'order_nodes': order_how, 'then': then, 'pre_ops': pre_ops,
             'blocks': blocks, 'variables': variables, 'overwrites': overwrites, 'id_mode': mode,
             'stream': 'malformed' if malformed else ('misaligned' if misaligned else 'main')}
 
@@ -194,6 +265,49 @@ def run_impl(ctx, cases, tag='cases'):
 
 
 # ------------------------------------------------- oracle (the property, Python)
+def table_state(c):
+    """the mesh as finite maps: node id -> point, and per variable id -> row (values replaced
+    through overwrite / the data setter folded in)"""
+    latest = {ow['name']: ow['flat'] for ow in c.get('overwrites', [])}
+    st = {'NODE': dict(zip(c['node_ids'], c['points']))}
+    for v in c['variables']:
+        w = 1
+        for s_ in v['shape'][1:]:
+            w *= s_
+        flat = latest.get(v['name'], v['flat'])
+        st[v['name']] = {i: flat[k * w:(k + 1) * w] for k, i in enumerate(v['ids'])}
+    return st
+
+
+def apply_ops(st, ops):
+    st = {k: dict(v) for k, v in st.items()}
+    for op in ops or []:
+        tb = st[op['target']]
+        if op['op'] == 'put':
+            for i, row in zip(op['ids'], op['rows']):
+                tb[i] = [pair(Fr(*x)) for x in row]
+        else:
+            sg = {a: b for a, b in op['sigma']}
+            st[op['target']] = {sg[i]: row for i, row in tb.items()}
+    return st
+
+
+def effective_case(c, st, held_ids):
+    """the case the export must describe after the edits.  Which storage order the node table has
+    after update() is femio's business (combine_first sorts); the property speaks of the storage
+    order the mesh HOLDS, so the order is taken from the object, the content by id from the case"""
+    nodes = st['NODE']
+    if sorted(held_ids) != sorted(nodes):
+        return None
+    variables = []
+    for v in c['variables']:
+        tb = st[v['name']]
+        vids = list(tb)
+        variables.append(dict(v, ids=vids, flat=[x for i in vids for x in tb[i]]))
+    return dict(c, node_ids=list(held_ids), points=[[pair(Fr(*x)) for x in nodes[i]] for i in held_ids],
+                variables=variables, overwrites=[], pre_ops=None, then=None)
+
+
 def oracle(c, r):
     bad = []
     if c['stream'] == 'tables':
@@ -225,6 +339,22 @@ def oracle(c, r):
         return bad
     if 'error' in r:
         return [('raised', r['error'])]
+    if c.get('pre_ops') or (c.get('then') or {}).get('ops'):
+        st = apply_ops(table_state(c), c.get('pre_ops'))
+        c1 = effective_case(c, st, r['held']['node_ids'])
+        if c1 is None:
+            return [('node-table-after-update', {'held_ids': r['held']['node_ids'][:12]})]
+        bad = oracle(c1, r)
+        th = c.get('then')
+        if th and 'second' in r and not bad:
+            if 'error' in r['second']:
+                return [('second-export:raised', r['second']['error'])]
+            c2 = effective_case(c, apply_ops(st, th.get('ops')), r['second']['held']['node_ids'])
+            if c2 is None:
+                return [('second-export:node-table-after-update',
+                         {'held_ids': r['second']['held']['node_ids'][:12]})]
+            bad = [('second-export:' + w, d) for w, d in oracle(c2, r['second'])]
+        return bad
     ids = c['node_ids']
     pos = {i: k for k, i in enumerate(ids)}
     if r['points'] != c['points']:
